@@ -83,6 +83,14 @@ def installation(gen, rnd, kind=None):
                 inst["acs"][0]["ability"]["start"] = 0
         else:
             meta["old_multi"] = True
+    # leftovers behind the terminator of fixed-width name fields (not even valid UTF-8)
+    for a in inst["acs"]:
+        if rnd.random() < 0.3:
+            a["ability"]["name_tail"] = rnd.choice([b"\xff", b"old name", b"\xc3"])
+    if gen == 4:
+        for z in inst["zones"]:
+            if rnd.random() < 0.3:
+                z["name_tail"] = rnd.choice([b"\xff", b"old", b"\xe2\x82"])
     return inst, meta
 
 
